@@ -884,12 +884,14 @@ class EClass(EClassifier):
             return
         if notif.feature is EClass.eSuperTypes:
             self._update_supertypes()
+            if notif.kind in (Kind.REMOVE, Kind.REMOVE_MANY):
+                self._drop_stale_holders()
         elif notif.kind in (Kind.REMOVE, Kind.REMOVE_MANY):
-            if notif.kind is Kind.REMOVE:
-                delattr(self.python_class, notif.old.name)
-            elif notif.kind is Kind.REMOVE_MANY:
-                for feature in notif.old:
-                    delattr(self.python_class, feature.name)
+            removed = [notif.old] if notif.kind is Kind.REMOVE else notif.old
+            for feature in removed:
+                delattr(self.python_class, feature.name)
+            if notif.feature is EClass.eStructuralFeatures:
+                self._drop_stale_holders()
         elif notif.feature is EClass.eOperations:
             if notif.kind is Kind.ADD:
                 self.__create_fun(notif.new)
@@ -902,6 +904,17 @@ class EClass(EClassifier):
         elif notif.feature is EClass.name and notif.kind is Kind.SET:
             self.python_class.__name__ = notif.new
             self.__name__ = notif.new
+
+    def _drop_stale_holders(self):
+        # existing instances must not keep the value holder of a feature their
+        # class lost: without the descriptor it would be handed out raw
+        for instance in self.allInstances():
+            names = {f.name for f
+                     in instance.eClass._eAllStructuralFeatures_gen()}
+            for key, value in list(instance.__dict__.items()):
+                if key not in names and isinstance(value,
+                                                   (EValue, ECollection)):
+                    del instance.__dict__[key]
 
     def __create_fun(self, eoperation):
         name = eoperation.normalized_name()
